@@ -55,11 +55,18 @@ def showErr : Err → String
   | .doubleVote => "double-vote"
   | .notEnough t n => s!"not-enough {t} {n}"
 
-def showOutcome (o : Outcome) (bits : List Nat) : String :=
+def showOutcome (o : Outcome) (bits ibits : List Nat) : String :=
   match o with
-  | .ok => s!"ok bits={showNatList bits}"
-  | .err e => s!"err {showErr e} bits={showNatList bits}"
+  | .ok => s!"ok bits={showNatList bits} ibits={showNatList ibits}"
+  | .err e => s!"err {showErr e} bits={showNatList bits} ibits={showNatList ibits}"
   | .panic => "panic"
+
+/-- oracle word `key` as the IMPLEMENTATION's result line reports it (recomputed by `run` with the
+    real code), falling back to the op line's when the result line has none (e.g. `panic`) -/
+def obsNatList (obsWs opWs : List String) (key : String) : Option (List Nat) :=
+  match natListArg? obsWs key with
+  | some l => some l
+  | none => natListArg? opWs key
 
 /-- first index holding `a` -/
 def firstIdxFrom (a : Addr) : Nat → List Addr → Option Nat
@@ -112,10 +119,10 @@ def showVErr : VErr → String
   | .notAdjacent => "not-adjacent"
   | .commit e => showErr e
 
-def showVOut (o : VOut) (bits : List Nat) : String :=
+def showVOut (o : VOut) (bits ibits : List Nat) : String :=
   match o with
-  | .ok => s!"ok bits={showNatList bits}"
-  | .err e => s!"err {showVErr e} bits={showNatList bits}"
+  | .ok => s!"ok bits={showNatList bits} ibits={showNatList ibits}"
+  | .err e => s!"err {showVErr e} bits={showNatList bits} ibits={showNatList ibits}"
   | .panic => "panic"
 
 /-- spec-side oracle from the per-entry bits: the bit of entry j is the verdict under the FIRST
@@ -211,15 +218,21 @@ def parseCommitF (ws : List String) (pre : String) : Option (CommitF (List UInt8
 structure ParsedEH where
   eh : ExtHeader (List UInt8)
   prims : Prims (List UInt8)
+  /-- validity bits computed through lumina's own `vote_sign_bytes` (what the model consumes) -/
   bits : List Nat
+  /-- validity bits computed over the independently encoded canonical vote -/
+  ibits : List Nat
+  /-- the oracle words as text, for echoing -/
+  words : String
 
-/-- header + commit + set + DAH + the three hashes computed by the real code + oracle bits -/
-def parseEH (ws : List String) (pre : String) : Option ParsedEH :=
+/-- header + commit + set + DAH (keys prefixed by `pre` in `ws`) + the oracle words (three hashes
+    computed by the real code, two kinds of validity bits), looked up in `ows` under prefix `opre` -/
+def parseEHWith (ws : List String) (pre : String) (ows : List String) (opre : String) : Option ParsedEH :=
   match parseHeaderF ws pre, parseCommitF ws pre, parseSetK ws pre,
         hexListArg? ws (pre ++ "rows"), hexListArg? ws (pre ++ "cols") with
   | some h, some c, some s, some rows, some cols =>
-    match hashArg? ws (pre ++ "xh"), hashArg? ws (pre ++ "xv"), hashArg? ws (pre ++ "xd"),
-          natListArg? ws (pre ++ "xb") with
+    match hashArg? ows (opre ++ "xh"), hashArg? ows (opre ++ "xv"), hashArg? ows (opre ++ "xd"),
+          natListArg? ows (opre ++ "xb") with
     | some xh, some xv, some xd, some bits =>
       let eh : ExtHeader (List UInt8) :=
         { header := h, commit := c, valset := s, dah := { rows := rows, cols := cols } }
@@ -236,9 +249,22 @@ def parseEH (ws : List String) (pre : String) : Option ParsedEH :=
                           match table.find? (fun t => t.1 == pk && t.2.1 == m && t.2.2.1 == some sg) with
                           | some t => t.2.2.2 == 1
                           | none => false }
-             bits := bits }
+             bits := bits
+             ibits := (natListArg? ows (opre ++ "xi")).getD []
+             words := " ".intercalate (["xh", "xv", "xd", "xb", "xi"].map (fun k =>
+               k ++ "=" ++ (arg? ows (opre ++ k)).getD "?")) }
     | _, _, _, _ => none
   | _, _, _, _, _ => none
+
+def parseEH (ws : List String) (pre : String) : Option ParsedEH := parseEHWith ws pre ws pre
+
+/-- for the spec pass: oracle words from the implementation's result segment `obsSeg` when it
+    carries them, else from the op line -/
+def parseEHObs (ws : List String) (pre : String) (obsSeg : String) : Option ParsedEH :=
+  let ows := words obsSeg
+  match arg? ows "xh" with
+  | some _ => parseEHWith ws pre ows ""
+  | none => parseEH ws pre
 
 def showValErr : ValErr → String
   | .versionBlock => "version-block"
